@@ -125,14 +125,18 @@ def coord_on_axis(rng, n, side, anchor, a, mode):
     if mode == "near-high":
         return anchor[a] + side[a] * (1.0 - 10 ** -rng.uniform(9, 15))
     if mode == "top":
-        return anchor[a] + n[a] * cs
+        # ON the upper boundary in the code's own arithmetic: the largest double p with
+        # p - anchor <= n * cell_size (a coordinate 1 ulp beyond it is outside the closed block)
+        p = anchor[a] + n[a] * cs
+        while p - anchor[a] > n[a] * cs:
+            p = math.nextafter(p, -math.inf)
+        return p
     raise ValueError(mode)
 
 
 def gen_packet(rng, n, side, anchor, pal, physical, upper=False):
     """one packet; returns (fields, meta).  upper=True: the start lies on the UPPER block boundary
-    on an axis whose index is computed from the position (outside the half-open ownership
-    convention of the cells; see findings)"""
+    on an axis whose index is computed from the position (it belongs to the last cell)"""
     d, dkind = gen_dir(rng)
     skind = rng.choice(["interior", "interior", "walls", "low-face-inside", "near-boundary",
                         "entry-face", "entry-face", "entry-edge", "entry-corner", "entry-mixed"])
@@ -414,14 +418,15 @@ class Comparer:
         return rc == 0 and len(lines) == 3 and " tie=1" in lines[2]
 
 
-LOCAL_FINDING_KEY = "march:start-on-upper-block-boundary"
-
-# minimal instance of the finding: 2x1x1 block of unit cells at the origin, packet on the upper x
-# face (x = 2) with entry INSIDE travelling in -x: returned through FACE_X_P with no visit
+# starts on the upper x face (x = 2) of a 2x1x1 block of unit cells at the origin, entry INSIDE:
+# travelling in -x the packet traverses the block (absorbed after a path of 1 in cell 1),
+# travelling in +x it leaves at once through FACE_X_P with zero path
 MINIMAL_UPPER = [
     "blk 0 0 0 %d %d %d 2 1 1" % (F(2.0), F(1.0), F(1.0)),
     "cells 1 1 0 %d %d 0" % (F(1.0), F(1.0)),
     "pkt " + " ".join(str(F(x)) for x in [2.0, 0.5, 0.5, -1.0, 0.0, 0.0, 1.0, 1.0, 0.0, 1.0, 1.0, 4.e15]) + " 0 9999999 1",
+    "pkt " + " ".join(str(F(x)) for x in [2.0, 0.5, 0.5, 1.0, 0.0, 0.0, 1.0, 1.0, 0.0, 1.0, 1.0, 4.e15]) + " 0 9999998 1",
+    "pkt " + " ".join(str(F(x)) for x in [2.0, 0.5, 0.5, -1.0, 0.0, 0.0, 1.e9, 1.0, 0.0, 1.0, 1.0, 4.e15]) + " 0 9999997 1",
 ]
 
 
@@ -434,8 +439,8 @@ def run(ctx):
     ctx.assumptions += [
         "theorems are about exact arithmetic (any linear ordered field); IEEE rounding is the named gap, bounded empirically by the correspondence tolerance (1e-10) and by the exact Rat run of the same definitions",
         "DBL_MAX sentinel of axes with direction component 0: theorems assume cell_size < DBL_MAX * |direction component| on every moving axis (hypothesis Valid.big)",
-        "start position owned by a cell of the block on every axis whose index is computed from the position: 0 <= x < extent (half-open, the cells' own ownership convention); a start exactly on the UPPER block boundary with a computed index is outside this domain (the code returns at once through the upper face whatever the direction: theorem upper_boundary_start_exits_at_once, exercised by the 'upper' stream)",
-        "the cast double -> int of position*inv_cell_size is modelled by a bounded search (floorUpTo), equal to the cast for 0 <= x; values >= n+1 are clamped to n (both 'outside, high')",
+        "start position in the closed block on every axis whose index is computed from the position: 0 <= x <= extent (a position on the upper boundary belongs to the last cell: the computed index is clamped, std::min(index, n-1)); what the code did before the clamp is kept as old_code_upper_boundary_index_outside; exercised by the 'upper' stream",
+        "the cast double -> int of position*inv_cell_size is modelled by a bounded search (floorUpTo), equal to the cast for 0 <= x < n+1 (larger values give n instead; no difference after the clamp to n-1)",
         "compiled configuration: HAS_HELIUM, no VARIABLE_ABUNDANCES, no USE_LOCKFREE, no SUBGRID_CELL_LOCK; assertions (cmac_assert) compiled out and not relied upon",
         "stops_inside_iff compares with the optical depth of the whole line as accumulated by the same march without the optical depth test (marchFree), for which path_sum / segments / exit_geometric are proved as well; the harness oracle compares with an independent slab-method chord computation in long double",
     ]
@@ -494,50 +499,23 @@ def run(ctx):
             ctx.sample({"ops": [blk, cells, op], "impl": impl[i], "model": model[i] if i < len(model) else None})
             shown += 1
 
-    # 2. the 'upper' stream: starts exactly on the upper block boundary with a computed index
-    #    (outside the half-open domain of the theorems).  Model and code must still agree; the
-    #    oracle failures of this stream are the recorded finding, anything else is a violation.
+    # 2. the 'upper' stream: starts exactly on the upper block boundary on an axis whose index is
+    #    computed from the position (entry INSIDE or through another face).  Since the index is
+    #    clamped to the last cell these starts are inside the domain of the theorems: strict
+    #    oracle, no finding key.
     up_ops, up_meta = generate(ctx.rng, ctx.budget(300, 5000), upper=True, start_id=10 ** 7)
     up_ops = MINIMAL_UPPER + up_ops
     cmp_up = Comparer(up_ops)
-    # the expected oracle failures of this stream are ONE finding (key LOCAL_FINDING_KEY).  It is
-    # reported through known_findings.txt when listed there; until then it is recorded in the
-    # evidence and printed, without failing the run (anything else in this stream does fail).
-    local = []
-    listed = any(p == ctx.pid and k == LOCAL_FINDING_KEY for p, k, d in vlib.known_findings())
-    orig_violation = ctx.violation
-
-    def divert(key, desc, replay_obj, found_input=True):
-        if key == LOCAL_FINDING_KEY and not listed:
-            local.append((desc, replay_obj))
-            return
-        return orig_violation(key, desc, replay_obj, found_input)
-    ctx.violation = divert
-    try:
-        nmis_u, impl_u, model_u, orc_u = ctx.correspond("upper", h, vlib.driver("drv_c02"), up_ops, cmp=cmp_up,
-                                                        group_start=lambda op: op.startswith("blk"),
-                                                        oracle_key=lambda what, grp: upper_key(what))
-    finally:
-        ctx.violation = orig_violation
-    if local:
-        desc, obj = local[0]
-        obj = dict(obj)
-        ops_min = obj.get("ops", [])
-        obj["ops"] = [ops_min[0], ops_min[1], ops_min[-1]] if len(ops_min) > 3 else ops_min
-        obj.update({"property": ctx.pid, "key": LOCAL_FINDING_KEY, "what": desc})
-        path = ctx.write_replay("finding-upper-boundary", obj)
-        ctx.cov["finding_outside_domain"] = {
-            "key": LOCAL_FINDING_KEY, "cases": len(local), "replay": path,
-            "what": "a packet whose start lies exactly on the UPPER block boundary on an axis whose index is computed from the position "
-                    "(entry INSIDE or through another face) gets start index n, the loop body never runs and interact() returns it through the upper face "
-                    "whatever its direction, also when it travels into the block (Lean: upper_boundary_start_exits_at_once; model and code agree)"}
-        vlib.log("FINDING (recorded, not in known_findings.txt): property=%s key=%s cases=%d replay=%s" % (ctx.pid, LOCAL_FINDING_KEY, len(local), path))
-        ctx.notes.append("finding %s observed on %d generated packets (start on the upper block boundary): recorded in coverage.finding_outside_domain; "
-                         "add 'finding: property=C02 key=%s ...' to known_findings.txt to have it reported as KNOWN-FINDING" % (LOCAL_FINDING_KEY, len(local), LOCAL_FINDING_KEY))
-    for op in up_ops:
+    nmis_u, impl_u, model_u, orc_u = ctx.correspond("upper", h, vlib.driver("drv_c02"), up_ops, cmp=cmp_up,
+                                                    group_start=lambda op: op.startswith("blk"),
+                                                    oracle_key=lambda what, grp: "upper:" + re.sub(r"\(.*?\)", "", what.split()[0]))
+    for op, ml in zip(up_ops, model_u):
         if op.startswith("pkt"):
             ctx.count()
             ctx.branch("gen-start-upper-boundary")
+            if " #" in ml:
+                for t in ml.split(" #")[1].split(","):
+                    ctx.branch("upper-" + t)
 
     # 3. exact run of the same definitions (Rat) on a sample: ties, theorem statements, deviation
     pk = [op for op in ops if op.startswith("pkt")]
@@ -601,21 +579,6 @@ def run(ctx):
         ctx.cov["coverage_gate"] = "all model branches taken"
 
 
-# what the oracle says about a packet that is returned at once through the upper face: the face
-# is not crossed there / is incompatible with the direction, the faces really crossed are not
-# named, the cells on the line got no path
-UPPER_EXPECTED = ("exit-face-incompatible-with-direction", "exit-face-named-but-not-crossed", "exit-face-not-named",
-                  "left-although-target-reached", "path-differs-from-chord")
-
-
-def upper_key(what):
-    first = re.sub(r"\(.*?\)", "", what.split()[0])
-    names = set(re.sub(r"\(.*?\)", "", t) for t in what.split())
-    if names <= set(UPPER_EXPECTED):
-        return LOCAL_FINDING_KEY
-    return "upper:" + first
-
-
 def replay(ctx, path):
     gen_c02_tables.generate()
     obj = json.load(open(path))
@@ -640,10 +603,11 @@ MANIFEST = dict(
          "independent oracles (slab-method chords in long double) are evaluated on the implementation.",
     note="Exact-arithmetic theorems: IEEE rounding is not modelled (gap bounded by the correspondence tolerance 1e-10 and the exact Rat run). Hypotheses: cell sizes > 0, "
          "direction != 0, opacities >= 0, tau_target > 0, cell_size < DBL_MAX*|d_a| on moving axes, inv_cell_size*cell_size = 1, and on axes whose index is computed from the "
-         "position 0 <= x < extent (half-open). A start exactly on the UPPER block boundary with a computed index is outside the domain: the code returns the packet at once "
-         "through the upper face whatever its direction (theorem upper_boundary_start_exits_at_once; recorded finding march:start-on-upper-block-boundary). "
+         "position 0 <= x <= extent (closed block; the computed index is clamped to the last cell, std::min(index, n-1)). The behaviour of the code before that clamp "
+         "(start on the upper boundary -> index n -> returned at once through the upper face whatever the direction) is kept as the frozen statement "
+         "old_code_upper_boundary_index_outside. "
          "stops_inside_iff measures the whole line with the same march without the optical-depth test (marchFree), not with an independent geometric chord definition "
-         "(that comparison is made numerically by the harness oracle). double->int cast modelled by a bounded search (equal for 0 <= x, clamped above n). "
+         "(that comparison is made numerically by the harness oracle). double->int cast modelled by a bounded search (equal to the cast for 0 <= x < n+1). "
          "Compiled configuration HAS_HELIUM, no VARIABLE_ABUNDANCES/USE_LOCKFREE/SUBGRID_CELL_LOCK; cmac_assert compiled out. Trusted: Lean kernel + 3 standard axioms, "
          "table generator harness/gen_c02_tables.cpp, harness and comparison rules.",
     technique="Lean 4 proof by loop invariant over a fuelled march (per-axis lemma, per-pass lemmas, induction on fuel) + tables by exhaustive evaluation and decide "
